@@ -380,104 +380,12 @@ class SlotNode(BaseNode):
         else:
             fill_name = slot_name
 
-        # NOTE: TBH not sure why this happens. But there's an edge case when:
-        # 1. Using the "django" context behavior
-        # 2. AND the slot fill is defined in the root template
-        #
-        # Then `ctx_with_fills.fills` does NOT contain any fills (`{% fill %}`). So in this case,
-        # we need to use a different strategy to find the fills Context layer that contains the fills.
-        #
-        # ------------------------------------------------------------------------------------------
-        #
-        # Context:
-        # When we render slot fills, we want to use the context as was OUTSIDE of the component.
-        # E.g. In this example, we want to render `{{ item.name }}` inside the `{% fill %}` tag:
-        #
-        # ```django
-        # {% for item in items %}
-        #   {% component "my_component" %}
-        #     {% fill "my_slot" %}
-        #       {{ item.name }}
-        #     {% endfill %}
-        #   {% endcomponent %}
-        # {% endfor %}
-        # ```
-        #
-        # In this case, we need to find the context that was used to render the component,
-        # and use the fills from that context.
-        if (
-            component_ctx.registry.settings.context_behavior == ContextBehavior.DJANGO
-            and component_ctx.outer_context is None
-            and (slot_name not in component_ctx.fills)
-        ):
-            # When we have nested components with fills, the context layers are added in
-            # the following order:
-            # Page -> SubComponent -> NestedComponent -> ChildComponent
-            #
-            # Then, if ChildComponent defines a `{% slot %}` tag, its `{% fill %}` will be defined
-            # within the context of its parent, NestedComponent. The context is updated as follows:
-            # Page -> SubComponent -> NestedComponent -> ChildComponent -> NestedComponent
-            #
-            # And if, WITHIN THAT `{% fill %}`, there is another `{% slot %}` tag, its `{% fill %}`
-            # will be defined within the context of its parent, SubComponent. The context becomes:
-            # Page -> SubComponent -> NestedComponent -> ChildComponent -> NestedComponent -> SubComponent
-            #
-            # If that top-level `{% fill %}` defines a `{% component %}`, and the component accepts a `{% fill %}`,
-            # we'd go one down inside the component, and then one up outside of it inside the `{% fill %}`.
-            # Page -> SubComponent -> NestedComponent -> ChildComponent -> NestedComponent -> SubComponent ->
-            # -> CompA -> SubComponent
-            #
-            # So, given a context of nested components like this, we need to find which component was parent
-            # of the current component, and use the fills from that component.
-            #
-            # In the Context, the components are identified by their ID, NOT by their name, as in the example above.
-            # So the path is more like this:
-            # a1b2c3 -> ax3c89 -> hui3q2 -> kok92a -> a1b2c3 -> kok92a -> hui3q2 -> d4e5f6 -> hui3q2
-            #
-            # We're at the right-most `hui3q2` (index 8), and we want to find `ax3c89` (index 1).
-            # To achieve that, we first find the left-most `hui3q2` (index 2), and then find the `ax3c89`
-            # in the list of dicts before it (index 1).
-            curr_index = get_index(
-                context.dicts, lambda d: _COMPONENT_CONTEXT_KEY in d and d[_COMPONENT_CONTEXT_KEY] == component_id
-            )
-            parent_index = get_last_index(context.dicts[:curr_index], lambda d: _COMPONENT_CONTEXT_KEY in d)
-
-            # NOTE: There's an edge case when our component `hui3q2` appears at the start of the stack:
-            # hui3q2 -> ax3c89 -> ... -> hui3q2
-            #
-            # Looking left finds nothing. In this case, look for the first component layer to the right.
-            if parent_index is None and curr_index + 1 < len(context.dicts):
-                parent_index = get_index(
-                    context.dicts[curr_index + 1 :], lambda d: _COMPONENT_CONTEXT_KEY in d  # noqa: E203
-                )
-                if parent_index is not None:
-                    parent_index = parent_index + curr_index + 1
-
-            trace_component_msg(
-                "SLOT_PARENT_INDEX",
-                component_name=component_ctx.component_name,
-                component_id=component_ctx.component_id,
-                slot_name=name,
-                component_path=component_ctx.component_path,
-                extra=(
-                    f"Parent index: {parent_index}, Current index: {curr_index}, "
-                    f"Context stack: {[d.get(_COMPONENT_CONTEXT_KEY) for d in context.dicts]}"
-                ),
-            )
-            if parent_index is not None:
-                ctx_id_with_fills = context.dicts[parent_index][_COMPONENT_CONTEXT_KEY]
-                ctx_with_fills = component_context_cache[ctx_id_with_fills]
-                slot_fills = ctx_with_fills.fills
-
-                # Add trace message when slot_fills are overwritten
-                trace_component_msg(
-                    "SLOT_FILLS_OVERWRITTEN",
-                    component_name=component_name,
-                    component_id=component_id,
-                    slot_name=slot_name,
-                    component_path=component_path,
-                    extra=f"Slot fills overwritten in django mode. New fills: {slot_fills}",
-                )
+        # NOTE: The slot is always resolved against the fills given to the component whose template
+        #       contains the slot tag (`component_ctx.fills`). There used to be a fallback for components
+        #       rendered WITHOUT an outer context (`Component.render()` called from Python) in the "django"
+        #       context behavior, which looked the fills up in the "parent" component found in the Context.
+        #       That resolved slots against the fills of an unrelated component instance (wrong content,
+        #       or endless recursion when that fill contained the slot itself).
 
         if fill_name in slot_fills:
             slot_fill_fn = slot_fills[fill_name]
